@@ -2473,7 +2473,14 @@ impl<T: PPGEvaluatorStrategy> PPGEvaluator<T> {
                     // but if you don't have an upstream,
                     // ande the strategy says 'already done',
                     // this is the only time we can get them invalidated
+                    //
+                    // An ephemeral that has per-dependency records but no output
+                    // record of its own failed (or was aborted while running) the
+                    // last time it ran. It must not be validated by its edges -
+                    // there is no output record to vouch for.
                     !Self::has_upstreams(&self.dag, node_idx)
+                        || (matches!(job.state, JobState::Ephemeral(_))
+                            && !self.history.contains_key(&job.job_id))
                 }
             };
             let job = &mut self.jobs[node_idx as usize];
